@@ -61,7 +61,7 @@ THEOREMS = [
     "SleapVerif.C20.scheduler_dict_places",
     "SleapVerif.C20.head_dict_places",
     "SleapVerif.C20.builder_complete_nested",
-    "SleapVerif.C20.convnext_model_type_counterexample",
+    "SleapVerif.C20.convnext_model_type_rejected",
     "SleapVerif.C20.geometric_scale_counterexample",
     "SleapVerif.C20.backbone_dict_drops_second_counterexample",
 ]
